@@ -245,6 +245,22 @@ def check_einsum_callbacks(prog: Program, rep: Report, rule: str) -> None:
             rep.error(f"{rule}: {where}: cannot find the multiply callback passed to compute_sum")
             continue
         cb = cbs['mul']
+        # every path of einsum returns the result of the library driver with this callback (no side path with other semantics)
+        rets = [r for r in own_nodes(f.node) if isinstance(r, ast.Return) and r.value is not None]
+        nested_rets = set()
+        for ch in f.children:
+            for r in own_nodes(ch.node):
+                if isinstance(r, ast.Return): nested_rets.add(id(r))
+        side = []
+        for r in rets:
+            if id(r) in nested_rets:
+                continue
+            v = r.value
+            okr = isinstance(v, ast.Call) and callee_last(v) == 'semiring_einsum_forward' and any(isinstance(a, ast.Name) and a.id == 'callback' or isinstance(a, ast.Name) and a.id in {c.name for c in f.children} for a in v.args)
+            if not okr:
+                side.append(norm(v)[:80])
+        rep.ob(rule, where, 'every return of einsum is semiring_einsum_forward(..., callback)', f.loc(), not side,
+               'no side path' if not side else f"a path returns `{side[0]}`: the product is then not formed by the callback that implements the semiring's mul (0 x inf = 0)")
         bad = []
         k = 0
         for a, b in itertools.product(S.carrier, repeat=2):
